@@ -27,6 +27,9 @@
 (*   - hold:  t is in "handle" after a hit and the bytes re-read are the   *)
 (*            bytes returned = the bytes in the map                        *)
 (*   - drop:  MutexDb!Drop                                                 *)
+(*   - statistics getters ("leaves"): the value is the number of entries  *)
+(*            at a moment between call and ret at which no call is inside  *)
+(*            its critical section; they need not wait for a held result   *)
 (* Since Acquire needs holder = None, no call of another thread can        *)
 (* linearize between the linearization of a hit and the drop stamp of its  *)
 (* handle: an operation that ran completely inside such a window (it did   *)
@@ -88,6 +91,7 @@ RetMatches(e, c, r) ==
   /\ e.res = r.r
   /\ (c.op = "get" /\ r.r) => e.val = r.val
   /\ (c.op = "scan") => (e.ks = r.ks /\ e.vs = r.vs)
+  /\ (c.op = "leaves") => e.n = r.n
 
 Quiet == \A t \in Threads : ~InCS(t)     \* nobody is inside a linearization
 
@@ -155,7 +159,22 @@ TAct(t) ==
 
 TReturn(t) == Return(t)
 
-TLin == /\ \E t \in Threads : TAcquire(t) \/ TAct(t) \/ TReturn(t)
+\* A statistics getter only reads: C13 demands that its value is linearizable, not that it waits for a
+\* caller who merely holds the result of a hit (nothing is being modified then).  So besides the route
+\* Acquire; Act; Return it may linearize, in one step, while the mutex is owned by a thread in "handle".
+\* (What it must never report is a value from the middle of another call's critical section: those
+\* values match no moment at which the index is Quiet.)
+TStatsWhilePinned(t) ==
+  /\ l <= N /\ Ev.e = "ret"
+  /\ Quiet
+  /\ pc[t] = "acq" /\ call[t].op = "leaves"
+  /\ holder # None /\ holder # t /\ pc[holder] = "handle"
+  /\ RetMatches(JTrace[await[t]], call[t], Result(map, call[t]))
+  /\ pc' = [pc EXCEPT ![t] = "idle"]
+  /\ call' = [call EXCEPT ![t] = NoCall]
+  /\ UNCHANGED <<map, holder, res, lin, ncalls>>
+
+TLin == /\ \E t \in Threads : TAcquire(t) \/ TAct(t) \/ TReturn(t) \/ TStatsWhilePinned(t)
         /\ UNCHANGED <<l, await>>
 
 TNext == TEvent \/ TLin
